@@ -18,7 +18,13 @@ pub fn minimise(
     let original_len = original.len();
     let mut best = original;
     let mut execs = 0u64;
+    // bounded in executions AND in wall-clock time (a tree under test can make single runs slow)
+    let started = std::time::Instant::now();
     let mut try_candidate = |cand: &[u32], execs: &mut u64| -> bool {
+        if started.elapsed().as_secs() > 90 {
+            *execs = (*execs).max(budget);
+            return false;
+        }
         *execs += 1;
         still_fails(cand)
     };
